@@ -125,7 +125,10 @@ class C12(scen.WorldProp):
         t1 = a1 + c1 * scen.blow_index(N, gap, rows1, 0) + 1.0 + rng.random()
         a2, c2 = t1 + rng.uniform(2.0, 6.0), I * rng.uniform(0.93, 1.07)
         rows2 = 16
-        events = ([call(t0, LOOK_TO)] + steady_band(N, humans, a1, c1, gap, rows1) + [call(t_stand, scen.STAND)]
+        # (the first touch may collapse: the band stops ringing some rows before Wheatley - who, told to keep going,
+        # rings on alone, still expecting them - is stood)
+        collapse = rng.choice([0, 0, 2, 3, 4]) if rows1 >= 6 else 0
+        events = ([call(t0, LOOK_TO)] + steady_band(N, humans, a1, c1, gap, rows1 - collapse) + [call(t_stand, scen.STAND)]
                   + [[t1 - 0.3, "msg", {"m": "global_state", "state": [True] * N}], call(t1, LOOK_TO)]
                   + steady_band(N, humans, a2, c2, gap, rows2))
         events.sort(key=lambda e: e[0])
